@@ -260,8 +260,8 @@ func GenBalFlags(r *RNG, j *Journal, val string, o BalGenOpts) BalFlags {
 			if !o.NoFilters && r.Chance(1, 5) {
 				m.Level = 0
 			}
-			if r.Chance(1, 3) {
-				m.Suffix = r.Range(1, 2)
+			if r.Chance(1, 2) {
+				m.Suffix = r.Range(1, 3)
 			}
 			if r.Chance(2, 3) {
 				m.Regex = genPattern(r, accounts)
